@@ -27,7 +27,15 @@ def run (ws : List String) : Option String := do
   let A : Nat → Nat → Nat → QI := fun k => tab2 L (ABs.getD (2*k) #[])
   let B : Nat → Nat → Nat → QI := fun k => tab2 L (ABs.getD (2*k+1) #[])
   let pre : Nat → Nat → Nat → QI := fun k => tab2 L (pres.getD k #[])
-  if mode == "densept" then
+  if mode == "caprec" then
+    -- `compute_caps` recursion: cap_k recomputed from cap_{k+1} with trIn = vec(1)/d, trOut = vec(1)
+    let d := (List.range (L+1)).find? (fun x => x * x == L) |>.getD 0
+    let trv : Nat → QI := fun a => if a / d == a % d then 1 else 0
+    let trIn : Nat → QI := fun a => trv a * QI.ofRat (1 / (d : Rat))
+    let rows := (List.range n).map (fun k =>
+      (List.range (D k)).map (fun b => capRec L D T trIn trv (cap (k+1)) k b))
+    pure (" ; ".intercalate (rows.map (fun st => " ".intercalate (st.map showQI))))
+  else if mode == "densept" then
     -- values of the dense process tensor (closed at step n) on the listed paths
     let pathSecs := ((secs.drop (5+5*n)).dropWhile (fun s => s.head? != some "paths")).map (fun s => s.drop 1)
     let vals := pathSecs.map (fun pw => match pw.mapM String.toNat? with
